@@ -14,7 +14,7 @@ import itertools
 from typing import Any, Dict, List
 
 PROPERTY = "C20"
-UNARY = ["gelu", "silu", "softmax", "layer_norm", "rms_norm", "dropout0", "linear", "hand_scaled"]
+UNARY = ["gelu", "silu", "softmax", "layer_norm", "rms_norm", "dropout0", "linear", "hand_scaled", "add_one_elem"]
 SPINE = ["linear", "gelu", "layer_norm", "softmax", "silu", "rms_norm"]
 MODULES = ["GELU", "SiLU", "Softmax", "Linear", "LinearReadout", "Conv1d", "LayerNorm", "RMSNorm", "Embedding",
            "CrossEntropyLoss", "MLP", "MHSA1", "MHSA2", "MHSA4c", "TransformerLayer", "TransformerDecoder", "DepthSequential"]
@@ -106,6 +106,7 @@ def _unary(name: str, d: int, dtype: Any) -> Any:
         "dropout0": lambda x: U.dropout(x, p=0.0),
         "linear": lambda x: U.linear(x, W, None, constraint=None),
         "hand_scaled": lambda x: U.scale_fwd(U.scale_bwd(x, 0.5) * 2.0, 0.25),
+        "add_one_elem": lambda x: U.add(x, torch.full((1,), 2.5, dtype=x.dtype)),
     }[name]
 
 
